@@ -162,6 +162,11 @@ func (a *remoteAuthorizer) Execute(ctx heimdall.Context, sub *subject.Subject) e
 			if err = json.Unmarshal(entry, &ai); err == nil {
 				logger.Debug().Msg("Reusing authorization information from cache")
 
+				// the cached response might originate from a rule with other expressions
+				if err = a.verify(ctx, ai.Payload); err != nil {
+					return err
+				}
+
 				authInfo = &ai
 			}
 		}
